@@ -209,6 +209,7 @@ class Report:
         self.dropped = []
         self.outcomes = {}
         self.gen_secs = 0.0
+        self.unsupported_paths = []
 
     @property
     def obligations(self):
@@ -380,6 +381,9 @@ def run_path(contract, decisions, mod, cls, fn):
                          {'clause': f'no {cname} may be raised under the precondition'})
     except PathEnd:
         status = 'cut'
+    except Unsupported as e:
+        # this path leaves the verified subset: its obligations cannot be generated (other paths still count)
+        status = 'unsupported: ' + str(e)
     return I, status
 
 
@@ -440,6 +444,8 @@ def generate(contract):
             rep.paths += 1
             if rep.paths > MAX_PATHS:
                 raise Unsupported(f'more than {MAX_PATHS} paths')
+            if status.startswith('unsupported'):
+                rep.unsupported_paths.append(status[13:])
             if 'pre_sat' in I.ghost and I.ghost['pre_sat'] == 'unsat':
                 rep.vacuous = True
             work.extend(I.new_branches)
